@@ -13,6 +13,15 @@ impl Iterator for SymIter {
 		if self.yielded < self.n { self.yielded += 1; Some(()) } else { None }
 	}
 	fn size_hint(&self) -> (usize, Option<usize>) { (self.n - self.yielded, Some(self.n - self.yielded)) }
+	/// the items are `()`: consuming them has no observable effect on the output (a unit encodes to nothing), so the
+	/// n-fold loop is elided for large n -- which makes EVERY batch size reachable, incl. batches that skip a prefix width class
+	fn fold<B, F: FnMut(B, ()) -> B>(mut self, init: B, mut f: F) -> B {
+		assert!(!self.must_not_iterate, "items were consumed although the combined count cannot be represented");
+		if self.n - self.yielded > 3 { return init }
+		let mut acc = init;
+		while let Some(x) = self.next() { acc = f(acc, x); }
+		acc
+	}
 }
 impl ExactSizeIterator for SymIter {}
 
@@ -34,9 +43,7 @@ fn append_zst<T: EncodeAppend<Item = ()>>() {
 	let v = vec_from(&p[..k]);
 	let n: usize = kani::any();
 	let total = old as u128 + n as u128;
-	// batch sizes: 0..=3 (iterated), or huge ones that make the combined count unrepresentable (must fail before iterating);
-	// huge AND representable batches would be iterated 2^32 times and are outside the bound
-	kani::assume(n <= 3 || (n > (u32::MAX as usize) - 4 && total > u32::MAX as u128));
+	// EVERY batch size in usize (the iteration over more than 3 unit items is elided by SymIter::fold, see there)
 	let it = SymIter { n, yielded: 0, must_not_iterate: total > u32::MAX as u128 };
 	let r = T::append_or_new(v, it);
 	match &r {
@@ -54,6 +61,8 @@ fn append_zst<T: EncodeAppend<Item = ()>>() {
 	kani::cover!(r.is_ok() && old == (1 << 30) - 1 && n == 1, "reach: 2^30-1 -> 2^30 widening");
 	kani::cover!(r.is_err() && n <= 3, "reach: overflow at 2^32");
 	kani::cover!(r.is_err() && n >= (1usize << 32), "reach: batch size beyond u32");
+	kani::cover!(r.is_ok() && old < 64 && n > 20000, "reach: one append skips a prefix width class (1 -> 4 bytes)");
+	kani::cover!(r.is_ok() && old < 64 && total >= (1u128 << 30), "reach: 1 -> 5 bytes");
 	core::mem::forget(r);
 }
 #[kani::proof]
